@@ -80,86 +80,111 @@ Section Chk.
 
   Definition segment {X} (l : list X) (from len : nat) : list X := firstn len (skipn from l).
 
-  (* C01 clauses for one step output; fam selects which family is checked (1 = C01, 7 = C07) *)
+  (* ---- one step output.  The ghost before the call gives the time, the agents already
+          reported done, the rewards accrued and delivered so far, the cycle position. ---- *)
+  Definition okeys (o : out Z Z) : list nat := map fst (o_obs o).
+  Definition g_row (g : ghost) : row := row_at sc (S (g_t g)).
+  Definition g_accr' (g : ghost) : list Z :=
+    add_lists (g_accr g) (firstn (sc_n sc) (r_acc (g_row g))).
+  Definition newly (o : out Z Z) : list nat := map fst (filter snd (o_done o)).
+  Definition g_done' (g : ghost) (o : out Z Z) : list nat := g_done g ++ newly o.
+  Definition g_deliv' (g : ghost) (o : out Z Z) : list Z :=
+    fold_left (fun dl a => set_nth dl a (nth a (g_accr' g) 0)) (okeys o) (g_deliv g).
+  Definition g_last' (g : ghost) : nat :=
+    match k with
+    | MTurn | MTurnPrefix =>
+        if r_all (g_row g) then g_last g
+        else snd (turn_walk (S (length corder)) (S (g_t g)) (g_done g) (g_last g))
+    | _ => g_last g
+    end.
+
+  Definition out_ghost (g : ghost) (o : out Z Z) (ns nr : nat) : ghost :=
+    upd_ghost g true (o_all o) (g_done' g o) (S (g_t g)) ns nr (g_accr' g) (g_deliv' g o)
+              (g_last' g) false.
+
+  (* C01 clauses *)
+  Definition chk_c01 (g : ghost) (acts sh : list (nat * Z)) (o : out Z Z)
+             (ns nr : nat) (steplog : list (list (nat * Z))) (readlog : list nat) : Z :=
+    let keys := okeys o in
+    let t := S (g_t g) in
+    if existsb (fun kv => memb (fst kv) (g_done g)) acts then 101        (* accepted a done agent *)
+    else if negb (Nat.eqb ns (S (g_nsteps g))) then 102                   (* sim.step not called exactly once *)
+    else if negb (match nth_error steplog (g_nsteps g) with
+                  | Some l => kvs_eqb l sh | None => false end) then 103  (* actions altered *)
+    else if negb (match k with MAll => perm_kvs acts sh | _ => kvs_eqb acts sh end) then 103
+    else if negb (nats_eqb keys (map fst (o_rew o)) && nats_eqb keys (map fst (o_done o))
+                  && nats_eqb keys (map fst (o_info o))) then 104         (* key sets differ *)
+    else if negb (nodupb keys) then 105
+    else if existsb (fun a => memb a (g_done g)) keys then 106            (* reports a done agent *)
+    else if negb (forallb (fun a => Nat.ltb a (sc_n sc)) keys) then 107
+    else if negb (forallb (fun kb => Bool.eqb (snd kb) (rdone t (fst kb))) (o_done o)) then 108
+    else if negb (forallb (fun kv => snd kv =? Z.of_nat t * 100 + Z.of_nat (fst kv)) (o_obs o)
+                  && forallb (fun kv => snd kv =? - (Z.of_nat t * 100 + Z.of_nat (fst kv)))
+                             (o_info o)) then 109
+    else if negb (forallb (fun kv => snd kv =? nth (fst kv) (g_accr' g) 0 - nth (fst kv) (g_deliv g) 0)
+                          (o_rew o)) then 110                             (* reward lost or repeated *)
+    else if negb (Nat.eqb nr (g_nreads g + length keys)
+                  && nats_eqb (segment readlog (g_nreads g) (length keys)) keys) then 111
+    else if negb (Bool.eqb (o_all o) (r_all (g_row g) || call_in (g_done' g o))) then 112   (* __all__ flag *)
+    else 0.
+
+  (* C07: who is reported *)
+  Definition chk_c07 (g : ghost) (o : out Z Z) : Z :=
+    let keys := okeys o in
+    let t := S (g_t g) in
+    let live_before := filter (fun a => negb (memb a (g_done g))) cagents in
+    if r_all (g_row g) then
+      (* the simulation finished: every agent not yet reported done is flushed *)
+      if negb (nats_eqb keys live_before) then 701 else 0
+    else
+      match k with
+      | MAll => if negb (nats_eqb keys live_before) then 702 else 0
+      | MTurn | MTurnPrefix =>
+          if negb (nats_eqb keys (fst (turn_walk (S (length corder)) t (g_done g) (g_last g))))
+          then 703 else 0
+      | MDyn =>
+          if negb (nats_eqb keys (dyn_walk t (g_done g) (r_next (g_row g)))) then 704 else 0
+      end.
+
+  (* C07 progress: an unfinished episode has a reported agent that can act *)
+  Definition chk_c07b (g : ghost) (o : out Z Z) : Z :=
+    let t := S (g_t g) in
+    if o_all o then 0
+    else if existsb (fun kb => negb (snd kb) && negb (memb (fst kb) (g_done' g o))) (o_done o) then 0
+    else match k with
+         | MDyn => if existsb (fun a => negb (memb a (g_done g)) && negb (rdone t a))
+                              (r_next (g_row g)) then 705 else 0
+         | _ => 705
+         end.
+
+  (* fam selects which family is checked (1 = C01, 7 = C07) *)
   Definition chk_out (fam : Z) (g : ghost) (acts sh : list (nat * Z)) (o : out Z Z)
              (ns nr : nat) (steplog : list (list (nat * Z))) (readlog : list nat) : Z * ghost :=
-    let keys := map fst (o_obs o) in
-    let t := S (g_t g) in
-    let row := row_at sc t in
-    let accr := add_lists (g_accr g) (firstn (sc_n sc) (r_acc row)) in
-    let newly := map fst (filter snd (o_done o)) in
-    let d' := g_done g ++ newly in
-    let deliv' := fold_left (fun dl a => set_nth dl a (nth a accr 0)) keys (g_deliv g) in
-    let last' :=
-      match k with
-      | MTurn | MTurnPrefix =>
-          if r_all row then g_last g else snd (turn_walk (S (length corder)) t (g_done g) (g_last g))
-      | _ => g_last g
-      end in
-    let g' := upd_ghost g true (o_all o) d' t ns nr accr deliv' last' false in
-    let c01 :=
-      if existsb (fun kv => memb (fst kv) (g_done g)) acts then 101        (* accepted a done agent *)
-      else if negb (Nat.eqb ns (S (g_nsteps g))) then 102                   (* sim.step not called exactly once *)
-      else if negb (match nth_error steplog (g_nsteps g) with
-                    | Some l => kvs_eqb l sh | None => false end) then 103  (* actions altered *)
-      else if negb (match k with MAll => perm_kvs acts sh | _ => kvs_eqb acts sh end) then 103
-      else if negb (nats_eqb keys (map fst (o_rew o)) && nats_eqb keys (map fst (o_done o))
-                    && nats_eqb keys (map fst (o_info o))) then 104         (* key sets differ *)
-      else if negb (nodupb keys) then 105
-      else if existsb (fun a => memb a (g_done g)) keys then 106            (* reports a done agent *)
-      else if negb (forallb (fun a => Nat.ltb a (sc_n sc)) keys) then 107
-      else if negb (forallb (fun kb => Bool.eqb (snd kb) (rdone t (fst kb))) (o_done o)) then 108
-      else if negb (forallb (fun kv => snd kv =? Z.of_nat t * 100 + Z.of_nat (fst kv)) (o_obs o)
-                    && forallb (fun kv => snd kv =? - (Z.of_nat t * 100 + Z.of_nat (fst kv)))
-                               (o_info o)) then 109
-      else if negb (forallb (fun kv => snd kv =? nth (fst kv) accr 0 - nth (fst kv) (g_deliv g) 0)
-                            (o_rew o)) then 110                             (* reward lost or repeated *)
-      else if negb (Nat.eqb nr (g_nreads g + length keys)
-                    && nats_eqb (segment readlog (g_nreads g) (length keys)) keys) then 111
-      else if negb (Bool.eqb (o_all o) (r_all row || call_in d')) then 112   (* __all__ flag *)
-      else 0 in
-    let c07 :=
-      let live_before := filter (fun a => negb (memb a (g_done g))) cagents in
-      if r_all row then
-        (* the simulation finished: every agent not yet reported done is flushed *)
-        if negb (nats_eqb keys live_before) then 701 else 0
-      else
-        match k with
-        | MAll => if negb (nats_eqb keys live_before) then 702 else 0
-        | MTurn | MTurnPrefix =>
-            let (exp, _) := turn_walk (S (length corder)) t (g_done g) (g_last g) in
-            if negb (nats_eqb keys exp) then 703 else 0
-        | MDyn =>
-            if negb (nats_eqb keys (dyn_walk t (g_done g) (r_next row))) then 704 else 0
-        end in
-    let c07b :=
-      (* progress: an unfinished episode has a reported agent that can act *)
-      if o_all o then 0
-      else if existsb (fun kb => negb (snd kb) && negb (memb (fst kb) d')) (o_done o) then 0
-      else match k with
-           | MDyn => if existsb (fun a => negb (memb a (g_done g)) && negb (rdone t a))
-                                (r_next row) then 705 else 0
-           | _ => 705
-           end in
-    ((if fam =? 1 then c01 else if c07 =? 0 then c07b else c07), g').
+    ((if fam =? 1 then chk_c01 g acts sh o ns nr steplog readlog
+      else if chk_c07 g o =? 0 then chk_c07b g o else chk_c07 g o),
+     out_ghost g o ns nr).
+
+  Definition reset_ghost (g : ghost) (ns nr : nat) : ghost :=
+    upd_ghost g true false pre_done O ns nr (zeros (sc_n sc)) (zeros (sc_n sc))
+              (match k with MTurn | MTurnPrefix => (1 mod length corder)%nat | _ => O end)
+              false.
+
+  Definition chk_r01 (g : ghost) (obs : list (nat * Z)) (ns nr : nat) : Z :=
+    if negb (Nat.eqb ns (g_nsteps g) && Nat.eqb nr (g_nreads g)) then 120
+    else if negb (forallb (fun kv => snd kv =? Z.of_nat (fst kv)) obs) then 121
+    else if existsb (fun a => memb a pre_done) (map fst obs) then 122
+    else 0.
+
+  Definition chk_r07 (obs : list (nat * Z)) : Z :=
+    let keys := map fst obs in
+    match k with
+    | MAll => if negb (nats_eqb keys corder) then 710 else 0
+    | MTurn | MTurnPrefix => if negb (nats_eqb keys (firstn 1 corder)) then 711 else 0
+    | MDyn => if negb (nats_eqb keys (r_next (row_at sc O))) then 712 else 0
+    end.
 
   Definition chk_reset (fam : Z) (g : ghost) (obs : list (nat * Z)) (ns nr : nat) : Z * ghost :=
-    let keys := map fst obs in
-    let g' := upd_ghost g true false pre_done O ns nr (zeros (sc_n sc)) (zeros (sc_n sc))
-                        (match k with MTurn | MTurnPrefix => (1 mod length corder)%nat | _ => O end)
-                        false in
-    let c01 :=
-      if negb (Nat.eqb ns (g_nsteps g) && Nat.eqb nr (g_nreads g)) then 120
-      else if negb (forallb (fun kv => snd kv =? Z.of_nat (fst kv)) obs) then 121
-      else if existsb (fun a => memb a pre_done) keys then 122
-      else 0 in
-    let c07 :=
-      match k with
-      | MAll => if negb (nats_eqb keys corder) then 710 else 0
-      | MTurn | MTurnPrefix => if negb (nats_eqb keys (firstn 1 corder)) then 711 else 0
-      | MDyn => if negb (nats_eqb keys (r_next (row_at sc O))) then 712 else 0
-      end in
-    ((if fam =? 1 then c01 else c07), g').
+    ((if fam =? 1 then chk_r01 g obs ns nr else chk_r07 obs), reset_ghost g ns nr).
 
   Fixpoint chk_hist (fam : Z) (g : ghost) (cs : list (call Z))
            (rs : list (resp Z Z * nat * nat)) (steplog : list (list (nat * Z)))
